@@ -8,6 +8,7 @@ let dispatch prop input observed =
   | "C19" -> C19.run input observed
   | "C20" -> C20.run input observed
   | "C04" | "C05" -> Coerce.run prop input observed
+  | "C18" | "C03" -> Text.run prop input observed
   | "C01" | "C02" | "C06" | "C08" | "C09" | "C10" | "C11" -> Exec.run prop input observed
   | p -> failwith ("modelrun: unknown property " ^ p)
 
@@ -23,6 +24,7 @@ let () =
          | S.L [S.A "case"; S.A id; S.A prop; input; observed] ->
            (try
               let (expected, verdict) = dispatch prop input observed in
+              let observed = if prop = "C18" || prop = "C03" then Text.norm_floats observed else observed in
               let ok = S.to_string expected = S.to_string observed in
               Printf.printf "%s %s %s %s\n" id (if ok then "ok" else "mismatch") verdict (S.to_string expected)
             with Failure m -> Printf.printf "%s error %s ()\n" id (String.map (fun c -> if c = ' ' then '_' else c) m))
